@@ -215,11 +215,16 @@ def validate_translated(info):
     time limit; if that fails, its definitions are kept one by one only while the file still compiles, and the
     ones dropped are named in the generation report (the ties that mention them then fail at once)."""
     for rel in ("Gen/Consts.v", "Gen/PrivConsts.v"):
-        sh(["coqc", "-q", "-Q", ".", "PS", rel], cwd=COQ, timeout=120)
-    for rel, limit in (("Gen/CFuns.v", 120), ("Gen/CApi.v", 120)):
+        p0 = os.path.join(COQ, rel)
+        if not (os.path.exists(p0 + "o") and os.path.getmtime(p0 + "o") >= os.path.getmtime(p0)):
+            sh(["coqc", "-q", "-Q", ".", "PS", rel], cwd=COQ, timeout=120)
+    for rel, limit in (("Gen/CFuns.v", 60), ("Gen/CApi.v", 60)):
         path = os.path.join(COQ, rel)
         if not os.path.exists(path):
             continue
+        vo = path + "o"
+        if os.path.exists(vo) and os.path.getmtime(vo) >= os.path.getmtime(path):
+            continue                      # unchanged since it was last compiled
         rc, _out = sh(["coqc", "-q", "-Q", ".", "PS", rel], cwd=COQ, timeout=limit)
         if rc == 0:
             continue
@@ -235,11 +240,11 @@ def validate_translated(info):
                 continue
             name = b.split()[1]
             open(scratch, "w").write("\n\n".join(kept + [b]) + "\n")
-            rc, out = sh(["coqc", "-q", "-Q", ".", "PS", scratch_rel], cwd=COQ, timeout=60)
+            rc, out = sh(["coqc", "-q", "-Q", ".", "PS", scratch_rel], cwd=COQ, timeout=30)
             if rc == 0:
                 kept.append(b)
             else:
-                why = "does not compile within 60 s" if rc == 124 else "does not typecheck: " + out.strip().split("\n")[-1][:160]
+                why = "does not compile within 30 s" if rc == 124 else "does not typecheck: " + out.strip().split("\n")[-1][:160]
                 kept.append("(* %s: DROPPED, the translation %s *)" % (name, why.replace("*)", "* )")))
                 dropped.append(name)
                 if isinstance(info.get("c2coq"), dict):
